@@ -159,7 +159,7 @@ def emit_unit(u, order, exclude=(), helpers=False):
     texts, waiting = {}, {}
     def attempt(name):
         try:
-            if name == "fill_bytes" and not helpers:
+            if name == "fill_bytes" and not helpers and not hasattr(u, "translate_fn"):
                 d = translate_fill_bytes(u, u.methods[name])
             elif name == "from_seed":
                 d = translate_fn(u, name)
@@ -169,6 +169,8 @@ def emit_unit(u, order, exclude=(), helpers=False):
                 d = translate_fn(u, name)
                 if "rec_from_seed" in d:
                     d = d.replace("def seed_from_u64 ", "def seed_from_u64 (rec_from_seed : List U8 → " + u.sinfo.lean + ") ", 1)
+            elif hasattr(u, "translate_fn"):
+                d = u.translate_fn(name)
             else:
                 d = translate_fn(u, name)
             ia = rs2lean.LAST.get((u.name, name), {}).get("ignored_asserts")
@@ -394,6 +396,7 @@ HEADER = """/-
   Part 2: for each, the theorem that it equals the hand-written model (namespace Rngs.ExtTie).
 -/
 import Rngs.Lib.ExtTie
+import Rngs.Lib.ExtTieJitter
 set_option linter.unusedVariables false
 set_option maxRecDepth 4096
 namespace Rngs
@@ -417,10 +420,16 @@ def generate(repo, exclude=None):
         report["XorShiftRng"] = dict(error=repr(e))
     # rand_jitter: the pure mixing core
     try:
+        done_by = {}
         for u, order in build_units_jitter(repo):
+            if hasattr(u, "ext_done"):
+                u.ext_done = {k: set(done_by.get(k, ())) for k in u.ext_done}
             text, done, skipped = emit_unit(u, order, exclude.get(u.name, {}))
+            done_by[u.name] = done
             parts.append(text)
             report[u.name] = dict(file=u.file, translated=done, skipped=skipped, shape=u.shape, seed_len=u.seed_len)
+            if getattr(u, "notes", None):
+                report[u.name]["notes"] = {k: v for k, v in u.notes.items() if k in done}
             theorems += jitter_theorems(u, done)
     except Exception as e:
         report["rand_jitter"] = dict(error=repr(e))
@@ -450,7 +459,10 @@ def generate(repo, exclude=None):
     digest = hashlib.sha256("\n".join(parts).encode()).hexdigest()[:16]
     out = [HEADER.format(digest=digest)] + parts + ["\nnamespace ExtTie"]
     for name, stmt, props, fn in theorems:
-        pr = PROOFS[fn]
+        pr = PROOFS.get(fn)
+        if name in CUSTOM_PROOFS:
+            out.append(f"theorem {name} : {stmt} := by\n  {CUSTOM_PROOFS[name]}")
+            continue
         if fn in HEAVY:
             out.append(f"set_option maxHeartbeats {HEAVY[fn]} in")
         out.append(f"theorem {name} : {stmt} := by" + (pr(name) if callable(pr) else f" {pr} Ext.{name}"))
@@ -477,11 +489,11 @@ def build_units_jitter(repo):
         if ty == "EcState" and trait is None:
             em.update({k: v for k, v in fns.items() if v.body is not None})
     units = []
-    # JitterRng: state = the model's Jitter.Rng (fields data, rounds, memPrevIndex, halfUsed); only `data` is touched here
+    # JitterRng: state = the model's Jitter.Rng (fields data, rounds, memPrevIndex, halfUsed); `stir_pool` (pure) is translated
+    # by the plain translator, everything else by the monadic one (rs2lean_tm.py), which emits this unit LAST (it calls the others)
     ju = Unit("JitterRng", StructInfo("JitterRng", "Jitter.Rng", {"data": ("u64", "data")}),
               {k: v for k, v in jm.items() if k in ("stir_pool",)}, {}, macros, {}, "Rngs.Ext.JitterRng")
     ju.shape, ju.seed_len, ju.file = ("Jitter", 64), None, "rand_jitter/src/lib.rs"
-    units.append((ju, ["stir_pool"]))
     # the nested fn lfsr(data, time) as a unit without state
     if "lfsr_time" in jm:
         try:
@@ -496,7 +508,15 @@ def build_units_jitter(repo):
               {k: v for k, v in em.items() if k == "stuck"}, {}, macros, {}, "Rngs.Ext.EcState")
     eu.shape, eu.seed_len, eu.file = ("Ec", 32), None, "rand_jitter/src/lib.rs"
     units.append((eu, ["stuck"]))
+    import rs2lean_tm
+    tu = rs2lean_tm.TmUnit(repo)
+    tu.name, tu.shape, tu.seed_len, tu.file, tu.plain = "JitterRng", ("Jitter", 64), None, "rand_jitter/src/lib.rs", ju
+    tu.methods = {k[1]: v for k, v in tu.jf.methods.items() if k[0] == "JitterRng"}
+    units.append((tu, JITTER_ORDER))
     return units
+
+JITTER_ORDER = ["stir_pool", "random_loop_cnt", "lfsr_time", "memaccess", "measure_jitter", "gen_entropy", "test_timer", "timer_stats",
+                "set_rounds", "new_with_timer", "clone", "next_u64", "next_u32", "fill_bytes"]
 
 def file_consts(f, extra=None):
     """the integer constants of a file that are constant expressions over literals and earlier constants:
@@ -729,10 +749,62 @@ def isaac_theorems(u, done, skipped=None):
     add("try_from_rng", f"∀ {{ρ : Type}} (fill : TryFill ρ) (src : ρ), {E}.try_from_rng fill src = Isaac.coreFromRng{w} fill src", ["C03", "C09"], "isaac_from_rng")
     return th
 
+# rand_jitter, timer monad: (statement, property ids, proof script).  E = Ext.JitterRng, J = Jitter (the model), T = Jitter.TM (Lib/ExtTieJitter)
+_MONAD = "bind_assoc, pure_bind"
+JITTER_TM = {
+    "random_loop_cnt": ("∀ (st : Jitter.Rng) (n : BitVec 32), n.toNat < 64 → Ext.JitterRng.random_loop_cnt st n = "
+                        "(do let r ← Jitter.randomLoopCnt st n.toNat; pure (r, st))", ["C12"],
+                        "intro st n h\n  unfold Ext.JitterRng.random_loop_cnt Jitter.randomLoopCnt\n"
+                        "  simp only [Nat.mod_eq_of_lt h, bind_assoc, pure_bind, Jitter.TM.rlc_folds n h]\n  rfl"),
+    "lfsr_time": ("∀ st time b, Ext.JitterRng.lfsr_time st time b = Jitter.lfsrTime st time b", ["C12"],
+                  "intro st time b\n  unfold Ext.JitterRng.lfsr_time Jitter.lfsrTime\n"
+                  "  simp only [JitterRng.random_loop_cnt st 4#32 (by decide), JitterLfsr.lfsr, bind_assoc, pure_bind]\n  first | done | (cases b <;> simp)"),
+    "memaccess": ("∀ st b, Ext.JitterRng.memaccess st b = Jitter.memaccess st b", ["C12"],
+                  "intro st b\n  exact Jitter.TM.memaccess_tie Ext.JitterRng.random_loop_cnt (fun st => JitterRng.random_loop_cnt st 4#32 (by decide)) st b"),
+    "measure_jitter": ("∀ st ec, Ext.JitterRng.measure_jitter st ec = "
+                       "(do let r ← Jitter.measureJitter st ec; pure (if r.1 then some () else none, r.2.1, r.2.2))", ["C12"],
+                       "intro st ec\n  unfold Ext.JitterRng.measure_jitter Jitter.measureJitter\n"
+                       "  simp only [JitterRng.memaccess, JitterRng.lfsr_time, EcState.stuck, bind_assoc, pure_bind]\n"
+                       "  first | done | (congr 1; funext a; congr 1; funext t; congr 1; funext b; split <;> simp) | (split <;> simp) | simp"),
+    "gen_entropy": ("∀ st, Ext.JitterRng.gen_entropy st = Jitter.genEntropy st", ["C12"],
+                    "intro st\n  exact Jitter.TM.gen_entropy_tie Ext.JitterRng.measure_jitter JitterRng.measure_jitter "
+                    "Ext.JitterRng.stir_pool JitterRng.stir_pool st"),
+    "test_timer": ("∀ st, (do let r ← Ext.JitterRng.test_timer st; pure (r.1.map BitVec.toNat, r.2)) = Jitter.testTimer st", ["C12", "C13"],
+                   "intro st\n  exact Jitter.TM.test_timer_tie Ext.JitterRng.memaccess JitterRng.memaccess Ext.JitterRng.lfsr_time "
+                   "JitterRng.lfsr_time Ext.EcState.stuck EcState.stuck st"),
+    "timer_stats": ("∀ st b, Ext.JitterRng.timer_stats st b = Jitter.timerStats st b", ["C12"],
+                    "intro st b\n  unfold Ext.JitterRng.timer_stats Jitter.timerStats\n"
+                    "  simp only [JitterRng.memaccess, JitterRng.lfsr_time, bind_assoc, pure_bind]\n  first | done | rfl | simp"),
+    "set_rounds": ("∀ st (r : BitVec 8), Ext.JitterRng.set_rounds st r = Jitter.setRounds st r.toNat", ["C12"],
+                   "intro st r\n  simp only [Ext.JitterRng.set_rounds, Jitter.setRounds, gt_iff_lt, BitVec.lt_def, decide_eq_true_eq, "
+                   "BitVec.toNat_ofNat, Nat.zero_mod]\n  rfl"),
+    "new_with_timer": ("Ext.JitterRng.new_with_timer = Jitter.newWithTimer", ["C12"], "first | rfl | decide"),
+    "clone": ("Ext.JitterRng.clone = Jitter.clone", ["C12", "C05", "C16"], "first | rfl | (funext st; rfl)"),
+    "next_u64": ("∀ st, Ext.JitterRng.next_u64 st = Jitter.nextU64 st", ["C12", "C05", "C16"],
+                 "intro st\n  unfold Ext.JitterRng.next_u64 Jitter.nextU64\n  simp only [JitterRng.gen_entropy, bind_assoc, pure_bind]\n"
+                 "  first | done | rfl | simp"),
+    "next_u32": ("∀ st, Ext.JitterRng.next_u32 st = Jitter.nextU32 st", ["C12", "C05", "C16"],
+                 "intro st\n  unfold Ext.JitterRng.next_u32 Jitter.nextU32\n  simp only [JitterRng.next_u64, bind_assoc, pure_bind]\n"
+                 "  first | done | rfl | (split <;> simp) | simp"),
+    "fill_bytes": ("∀ st n, Ext.JitterRng.fill_bytes st n = Jitter.fill n st", ["C12", "C05", "C16"],
+                   "intro st n\n  exact Jitter.TM.fill_tie Ext.JitterRng.next_u32 JitterRng.next_u32 Ext.JitterRng.next_u64 JitterRng.next_u64 st n"),
+}
+CUSTOM_PROOFS = {}
+
 def jitter_theorems(u, done):
     th = []
     if u.name == "JitterRng" and "stir_pool" in done:
         th.append(("JitterRng.stir_pool", "∀ st, Ext.JitterRng.stir_pool st = { st with data := Jitter.stir st.data }", ["C12", "C15"], "stir_pool"))
+    if u.name == "JitterRng":
+        for fn in done:
+            if fn in JITTER_TM:
+                stmt, props, proof = JITTER_TM[fn]
+                th.append((f"JitterRng.{fn}", stmt, props, fn))
+                CUSTOM_PROOFS[f"JitterRng.{fn}"] = proof
+                if fn != "fill_bytes":
+                    # the partial operations (C14's subject) found in the source are the ones Checked.Jitter accounts for
+                    th.append((f"JitterRng.{fn}_partial_ops", f"Ext.JitterRng.{fn}_partial_ops = Jitter.TM.partialOps \"{fn}\"", ["C14"], fn))
+                    CUSTOM_PROOFS[f"JitterRng.{fn}_partial_ops"] = "first | rfl | decide"
     if u.name == "JitterLfsr" and "lfsr" in done:
         th.append(("JitterLfsr.lfsr", "Ext.JitterLfsr.lfsr = Jitter.lfsr", ["C12", "C15"], "lfsr"))
     if u.name == "EcState" and "stuck" in done:
